@@ -1,5 +1,5 @@
 (* C10 - WriteTo emits one complete frame and reports its size truthfully. *)
-From MQ Require Import Model.Render Model.Fill Proofs.BytesP Proofs.EncP Proofs.RenderP Proofs.TotalP Proofs.FillP Model.StringIR Proofs.StringP gen.GenString gen.SyncString.
+From MQ Require Import Model.Render Model.Fill Proofs.BytesP Proofs.EncP Proofs.RenderP Proofs.TotalP Proofs.FillP Model.StringIR Proofs.StringP gen.GenString gen.SyncString Model.WireIR Proofs.WireIRP gen.GenWire gen.SyncWire.
 From Coq Require Import Strings.String. From Coq Require Import List. Import ListNotations. Open Scope N_scope.
 
 (* the frame: first byte, remaining length, exactly that many bytes *)
@@ -155,3 +155,56 @@ Theorem C10_string_is_the_source : forall k p, string_ir k <> None ->
   run_string_of k p = string_toks k p.
 Proof. exact run_string_is_string_toks. Qed.
 Print Assumptions C10_string_is_the_source.
+
+(* The functions C10_fill_positional and C10_two_pass are stated on - fill_u8,
+   fill_u16, fill_u32, fill_bool, fill_bin, fill_raw, fill_vb, the common
+   fillProp, UserProp's two methods, bits.fillOpt and the widths the guards
+   use - are not only a hand-written reading of wiretypes.go: tools/gosync
+   (wire.go) translates fill, fillProp, fillOpt and width of the nine wire
+   types statement by statement (locals i, n, x, encodedByte; guarded stores;
+   if/else; the loop of vbint.fill) and regenerates the table on every run;
+   it is the table the model holds, and running each statement list - on every
+   value, identifier, buffer and position - is the corresponding function of
+   Model/Fill.v.  A call of another wire type's fill inside a method is run as
+   that type's function, whose own statement list is covered by the same
+   theorem. *)
+Theorem C10_wire_encoders_are_the_source :
+  g_wire_progs = wire_progs /\
+  (forall w v id buf i,
+     run_fill (prog (go_type w ++ ".fill")) (env_of w v id) buf i = wfill w v buf i /\
+     run_fill (prog (go_type w ++ ".fillProp")) (env_of w v id) buf i = wfill_prop w id v buf i /\
+     run_fill (prog (go_type w ++ ".width")) (env_of w v id) buf i = Some (buf, e_self_width (env_of w v id))) /\
+  (forall n id buf i,
+     run_fill (prog "Ident.fill") (env_of U8 (VN n) id) buf i = fill_u8 n buf i /\
+     run_fill (prog "Ident.fillProp") (env_of U8 (VN n) id) buf i = Some (buf, 0%nat) /\
+     run_fill (prog "Ident.width") (env_of U8 (VN n) id) buf i = Some (buf, 1%nat)) /\
+  (forall n id buf i, run_fill (prog "bits.fillOpt") (env_of U8 (VN n) id) buf i = fill_opt n buf i) /\
+  (forall kv id buf i,
+     run_fill (prog "UserProp.fill") (env_userprop kv id) buf i = fill_userprop kv buf i /\
+     run_fill (prog "UserProp.fillProp") (env_userprop kv id) buf i = fill_userprop_prop id kv buf i /\
+     run_fill (prog "UserProp.width") (env_userprop kv id) buf i = Some (buf, width_userprop kv)).
+Proof.
+  exact (conj sync_wire_progs
+        (conj (fun w v id buf i => conj (wire_fill_is_prog w v id buf i)
+                                  (conj (wire_fillprop_is_prog w v id buf i) (wire_width_is_prog w v id buf i)))
+        (conj ident_is_prog (conj run_bits_fillopt userprop_is_prog)))).
+Qed.
+Print Assumptions C10_wire_encoders_are_the_source.
+
+(* so for the statement lists themselves: given room, the regenerated
+   wuint16.fill ... vbint.fill write exactly the bytes of the byte-list
+   encoder at the position and report their number; without room they write
+   nothing and still report it *)
+Theorem C10_wire_program_writes_encode : forall w v id buf i,
+  exists b', run_fill (prog (go_type w ++ ".fill")) (env_of w v id) buf i = Some (b', List.length (Wire.encode w v)) /\
+             List.length b' = List.length buf /\
+             ((i + List.length (Wire.encode w v) <= List.length buf)%nat -> b' = put buf i (Wire.encode w v)).
+Proof. intros w v id buf i. rewrite wire_fill_is_prog. exact (wfill_ok w v buf i). Qed.
+Print Assumptions C10_wire_program_writes_encode.
+
+(* non-vacuity: the regenerated wuint16.fill on a four-byte buffer at position 1 *)
+Example C10_wire_example :
+  run_fill (prog "wuint16.fill") (env_of U16 (VN 258) 0) [x00; x00; x00; x00] 1 = Some ([x00; x01; "002"%byte; x00], 2%nat)
+  /\ run_fill (prog "vbint.fill") (env_of Vb (VN 300) 0) [x00; x00; x00] 0 = Some (["172"%byte; "002"%byte; x00], 2%nat)
+  /\ run_fill (prog "vbint.fill") (env_of Vb (VN 300) 0) [] 0 = Some ([], 2%nat).
+Proof. vm_compute. repeat split; reflexivity. Qed.
